@@ -418,5 +418,25 @@ def register(gen, T):
         out.append("/-- the arms of the typer's `parse_literal`: (pattern, guard, result) -/\n")
         out.append("def parseLiteralArms : List (String × String × String) := " +
                    T.lean_list("(%s, %s, %s)" % (T.lean_str(a), T.lean_str(b), T.lean_str(c)) for a, b, c in rows) + "\n")
+        # the typer folds an untyped literal into the scalar type its context names (`ImplicitConversion::apply`, casting.rs):
+        # (literal kind, condition of the `if let`, target type pattern, result) for every arm of the two matches
+        cast = T.src("typer/src/casting.rs")
+        fold = []
+        for lk in ("IntLiteral", "FloatLiteral"):
+            hits = [m for m in re.finditer(r'if let Expression::Literal\(Constant::%s\(v\)\) = expr' % lk, cast)]
+            if len(hits) != 1:
+                raise ExtractError("casting.rs: expected exactly one `if let Expression::Literal(Constant::%s(v)) = expr`, found %d" % (lk, len(hits)))
+            brace = cast.index("{", hits[0].end())
+            cond = normws(cast[hits[0].end():brace])
+            scrut, arms_text, _ = first_match(cast, r'get_type_layer\(target_type_unmodified\)', hits[0].end())
+            for pats, guard, result in match_arms(arms_text):
+                r = result
+                if r.startswith("{"):
+                    r = normws(r[1:-1]).rstrip(";").strip()
+                fold.append((lk, cond + ((" if " + normws(guard)) if guard else ""), " | ".join(pats), normws(r)))
+        out.append("\n/-- casting.rs: an untyped literal converted to a scalar type is folded into a typed literal: "
+                   "(literal kind, condition, target type, result) -/\n")
+        out.append("def literalFoldArms : List (String × String × String × String) := " +
+                   T.lean_list("(%s, %s, %s, %s)" % tuple(T.lean_str(x) for x in row) for row in fold) + "\n")
         out.append(T.footer("LitFormatTables"))
         return "".join(out)
